@@ -26,6 +26,10 @@ def main():
         return 2
     except AnchorMissing as e:
         ck.bad('anchor', str(e), f'anchor missing — {e} (rule precondition: needs triage)')
+    if tier == 'thorough' and not a.replay:
+        rc2 = thorough_extras(ck, mod, prop, seed)
+        if rc2:
+            return rc2
     rc = ck.finish()
     if a.replay:
         try:
@@ -38,6 +42,56 @@ def main():
             print(f'CHECK-ERROR: cannot replay {a.replay}: {e}')
             return 2
     return rc
+
+
+# feature configurations re-analysed by the thorough tier (facts.CONFIGS): the rules are evaluated again on the program the other cfg selects
+THOROUGH_CONFIGS = {p: ['truncated'] for p in ('C01', 'C02', 'C03', 'C04', 'C05', 'C06', 'C07', 'C08', 'C09', 'C14', 'C15', 'C16', 'C17', 'C18', 'C19', 'C20')}
+THOROUGH_CONFIGS.update({'C10': ['devcurves'], 'C11': ['devcurves']})
+
+
+def thorough_extras(ck, mod, prop, seed):
+    """(1) every rule again under the alternative feature configuration(s); (2) the property's checker-must-fire suite (hand-written mutants and the
+    sub-agent seeds) against scratch copies of the current tree."""
+    for cfg in THOROUGH_CONFIGS.get(prop, []):
+        sub = Check(prop, 'thorough', seed, config=cfg)
+        try:
+            mod.run(sub)
+        except facts.CheckError as e:
+            print(f'CHECK-ERROR: {e}')
+            return 2
+        except AnchorMissing as e:
+            sub.bad('anchor', str(e), f'anchor missing — {e} (rule precondition: needs triage)')
+        for i in sub.instances:
+            i['config'] = cfg
+            if not i['ok']:
+                i['what'] = f'[feature configuration `{cfg}`] ' + i['what']
+            ck.instances.append(i)
+        for k, v in sub.analysed.items():
+            ck.analysed[f'{k} [{cfg}]'] = v
+        ck._worlds.update({f'{cfg}': w for c, w in sub._worlds.items()})
+        ck.notes.append(f'all rules re-evaluated under feature configuration `{cfg}` ({" ".join(facts.CONFIGS[cfg])}): {len(sub.instances)} instances')
+    if os.environ.get('MZK_REPO') or os.environ.get('VERIF_NO_SELFTEST'):
+        return 0
+    sys.path.insert(0, facts.VERIF)
+    from selftest import run as st
+    cases = st.load_cases(prop)
+    fired, failed = 0, []
+    import concurrent.futures as cf
+    with cf.ThreadPoolExecutor(max_workers=int(os.environ.get('VERIF_SELFTEST_JOBS', '3'))) as ex:
+        for c, verdict, detail in ex.map(st.run_case, cases):
+            if verdict == 'FIRED':
+                fired += 1
+            else:
+                failed.append((c, verdict, detail))
+    ck.analysed['self-tests (mutants that must be reported)'] = len(cases)
+    ck.analysed['self-tests fired'] = fired
+    ck.notes.append(f'checker-must-fire suite: {fired}/{len(cases)} mutants of this property reported with the expected rule instance '
+                    f'({", ".join(os.path.basename(os.path.dirname(c["patch"])) + "/seed" if os.path.isabs(c["patch"]) else c["patch"] for c in cases)})')
+    if failed:
+        for c, verdict, detail in failed:
+            print(f'CHECK-ERROR: self-test {c["patch"]} did not fire as expected ({verdict}): the checker lost sensitivity; last output: {detail[-300:]}')
+        return 2
+    return 0
 
 
 if __name__ == '__main__':
